@@ -176,6 +176,237 @@ def roundtrip_oracle(req, ans):
     return None
 
 
+def client_canon(ans):
+    """drop the timing fields; mask the (random) message ID at the start of an accepted raw answer"""
+    groups = []
+    for g in ans.split(" | "):
+        toks = [t for t in g.split(" ") if not t.startswith("ms=") and not t.startswith("t=")]
+        out = []
+        for t in toks:
+            m = re.match(r"res=ok:(\d+):([0-9a-f]+)$", t)
+            if m and len(m.group(2)) >= 4:
+                t = "res=ok:%s:0000%s" % (m.group(1), m.group(2)[4:])
+            out.append(t)
+        groups.append(" ".join(out))
+    return " | ".join(groups)
+
+
+def client_fields(group):
+    d = {}
+    for t in group.split(" "):
+        if "=" in t:
+            k, v = t.split("=", 1)
+            d[k] = v
+    return d
+
+
+def client_equiv(a, b):
+    """equality of canonical client answers, tolerating ±1 retransmission at a lifetime edge"""
+    if a == b:
+        return True
+    ga, gb = a.split(" | "), b.split(" | ")
+    if len(ga) != len(gb):
+        return False
+    for x, y in zip(ga, gb):
+        if x == y:
+            continue
+        fx, fy = client_fields(x), client_fields(y)
+        if set(fx) != set(fy):
+            return False
+        for k in fx:
+            if k == "nudp":
+                if abs(int(fx[k]) - int(fy[k])) > 1 or (fx[k] != fy[k] and not fx.get("res", "").startswith(("err:Timeout", "dropped"))):
+                    return False
+            elif fx[k] != fy[k]:
+                return False
+    return True
+
+
+def client_req(req):
+    toks = req.split(" ")
+    cfg = {}
+    for t in toks[1:]:
+        if t.startswith("api="):
+            break
+        if "=" in t:
+            k, v = t.split("=", 1)
+            cfg[k] = v
+    qs = []
+    cur = None
+    for t in toks[1:]:
+        if t.startswith("api="):
+            cur = {}
+            qs.append(cur)
+        if t == "|":
+            continue
+        if cur is not None and "=" in t:
+            k, v = t.split("=", 1)
+            cur[k] = v
+    return cfg, qs
+
+
+def client_oracle(req, ans):
+    """what the client properties demand of an answer line, judged without the model"""
+    c = crash_oracle(req, ans)
+    if c:
+        return c
+    if ans == "bad-request":
+        return None
+    cfg, qs = client_req(req)
+    lt = int(cfg.get("lt", "0"))
+    qt = None if cfg.get("qt") == "none" else int(cfg.get("qt", "0"))
+    groups = ans.split(" | ")
+    for q, g in zip(qs, groups):
+        f = client_fields(g)
+        res = f.get("res", "")
+        if f.get("tail") == "0":
+            return "bytes beyond the returned length were written into the caller's buffer"
+        if f.get("udpsame") == "0":
+            return "a re-sent UDP query differs from the first one"
+        if res.startswith("err:IoError(") and res not in ("err:IoError(UnexpectedEof)",):
+            return "the query failed with %s (only a response, Timeout or a TCP framing error may end it)" % res[4:]
+        if res.startswith("err:IoError(UnexpectedEof)") and f.get("ntcp") == "0":
+            return "an I/O error ended a UDP-only exchange"
+        ms = int(f.get("ms", "0"))
+        slack = 150
+        if ms > lt + slack and q.get("drop", "none") == "none":
+            return "timing: the call took %d ms, lifetime %d ms (+%d ms slack)" % (ms, lt, slack)
+        ts = [int(x) for x in f.get("t", "-").split(",")] if f.get("t", "-") != "-" else []
+        if qt is None and len(ts) > 1:
+            return "retries are disabled but %d queries were sent" % len(ts)
+        if qt is not None:
+            for k, t in enumerate(ts):
+                if t < k * qt - 4:
+                    return "timing: query %d re-sent after %d ms, before its timeout (%d ms each)" % (k, t, qt)
+                if t > k * qt + 25 + 8 * k + 40:
+                    return "timing: query %d re-sent only after %d ms (timeout %d ms each)" % (k, t, qt)
+            if res == "err:Timeout" and cfg.get("strat") != "tcp" and len(ts) >= 1:
+                expect = -(-lt // qt)
+                if len(ts) < expect - 1:
+                    return "timing: only %d queries sent before the lifetime ended (expected about %d)" % (len(ts), expect)
+    return None
+
+
+def encode_name_ref(text):
+    """independent reference encoder: canonical wire form of a valid text name (None if not valid)"""
+    if text == b".":
+        return b"\x00"
+    if not text:
+        return None
+    t = text[:-1] if text.endswith(b".") else text
+    out = b""
+    for lab in t.split(b"."):
+        if not (1 <= len(lab) <= 63):
+            return None
+        if not all((48 <= c <= 57) or (65 <= c <= 90) or (97 <= c <= 122) or c in (45, 95) for c in lab):
+            return None
+        if lab[0] == 45 or lab[-1] == 45:
+            return None
+        out += bytes([len(lab)]) + lab
+    out += b"\x00"
+    return out if len(out) <= 255 else None
+
+
+def expected_query(cfg, q, buflen):
+    """the bytes (ID zeroed, no prefix) the property demands on the wire; None when the name is invalid"""
+    name = b"" if q["qname"] == "-" else bytes.fromhex(q["qname"])
+    wire = encode_name_ref(name)
+    if wire is None:
+        return None
+    edns = cfg.get("edns", "off")
+    flags = 0x0100 if cfg.get("rd") == "1" else 0
+    ar = 0 if edns == "off" else 1
+    msg = b"\x00\x00" + flags.to_bytes(2, "big") + (1).to_bytes(2, "big") + b"\x00\x00\x00\x00" + ar.to_bytes(2, "big")
+    msg += wire + int(q["qtype"]).to_bytes(2, "big") + int(q["qclass"]).to_bytes(2, "big")
+    if edns != "off":
+        ver, payload = [int(x) for x in edns.split(":")]
+        payload = min(payload, buflen)
+        msg += b"\x00" + (41).to_bytes(2, "big") + payload.to_bytes(2, "big") + bytes([0, ver, 0, 0]) + b"\x00\x00"
+    return msg
+
+
+def client_c11_oracle(req, ans):
+    """C11 on the wire: decode nothing — compare with an independently built expected query"""
+    c = client_oracle(req, ans)
+    if c:
+        return c
+    if ans == "bad-request":
+        return None
+    cfg, qs = client_req(req)
+    for q, g in zip(qs, ans.split(" | ")):
+        f = client_fields(g)
+        if f.get("res", "").startswith("err:BadParam"):
+            continue
+        buflen = int(cfg["cfgbuf"]) if q.get("api") == "rrset" else int(q["buf"])
+        qq = dict(q)
+        if q.get("api") == "rrset":
+            qq["qtype"] = "1"
+        exp = expected_query(cfg, qq, buflen)
+        sent = [x for x in (f.get("udp0"), f.get("tcp0")) if x and x != "-"]
+        if exp is None or buflen < 512:
+            if sent:
+                return "something was sent although the query must be refused (invalid name or buffer below 512 bytes)"
+            if not f.get("res", "").startswith("err:"):
+                return "an invalid query was not refused with an error"
+            continue
+        if f.get("udp0", "-") != "-" and bytes.fromhex(f["udp0"]) != exp:
+            return "UDP query bytes differ from what was asked: %s" % f["udp0"][:120]
+        if f.get("tcp0", "-") != "-":
+            t = bytes.fromhex(f["tcp0"])
+            if t != len(exp).to_bytes(2, "big") + exp:
+                return "TCP query bytes are not <2-byte length><same message>: %s" % f["tcp0"][:120]
+    return None
+
+
+def query_oracle(req, ans):
+    """stream `query` (hook-level QueryWriter): same expectation, any buffer size"""
+    c = crash_oracle(req, ans)
+    if c:
+        return c
+    if ans in ("length-beyond-buffer", "id-mismatch"):
+        return ans
+    t = req.split(" ")
+    cap, ty, cl, rd, opt, h = int(t[1]), t[2], t[3], t[4], t[5], t[6]
+    a = ans.split(" ")
+    if a[0] == "not-utf8":
+        return None
+    cfg = {"rd": rd, "edns": "off" if opt == "-" else opt}
+    exp = expected_query(cfg, {"qname": h, "qtype": ty, "qclass": cl}, 65535)
+    if a[0] == "ok":
+        if "rest=false" in ans:
+            return "bytes beyond the message were modified in the caller's buffer"
+        n = int(a[1])
+        got = bytes.fromhex(a[2]) if a[2] != "-" else b""
+        if exp is None:
+            return "an invalid name was encoded"
+        if got != (len(exp)).to_bytes(2, "big") + exp or n != len(exp) + 2:
+            return "encoded query differs from what was asked"
+    elif a[0] == "err":
+        if exp is not None and cap >= len(exp) + 2:
+            return "a valid query that fits the buffer was refused: " + ans[:80]
+    return None
+
+
+def client_proj(req, ans):
+    out = []
+    for g in client_canon(ans).split(" | "):
+        f = client_fields(g)
+        res = f.get("res", "")
+        out.append("%s nudp~%s ntcp=%s udp0=%s tcp0=%s" % (res, "" if res.startswith("err:Timeout") else f.get("nudp"), f.get("ntcp"),
+                                                       f.get("udp0"), f.get("tcp0")))
+    return " | ".join(out)
+
+
+def client_key(req, ans):
+    cfg, qs = client_req(req)
+    g = ans.split(" | ")
+    kinds = []
+    for x in g:
+        r = client_fields(x).get("res", "?")
+        kinds.append(re.sub(r":.*", "", r) if r.startswith("ok") else r)
+    return "%s %s %s" % (cfg.get("rt"), cfg.get("strat"), ",".join(kinds))[:80]
+
+
 def rrset_gate_oracle(req, ans):
     """C07, independent of the model: read the gates straight off the header bytes of the request"""
     c = crash_oracle(req, ans)
@@ -196,6 +427,14 @@ def rrset_gate_oracle(req, ans):
         return "a record set was returned although RCODE=%d" % (flags & 0xF)
     return None
 
+
+for _name, _n, _par in [("c11", 480, 8), ("c12", 400, 8), ("c13", 240, 8), ("c14", 400, 8), ("c15", 240, 6), ("c16", 160, 6)]:
+    STREAMS[_name] = dict(
+        kinds=["client"], quick=_n, thorough=_n * 12, parallel=_par, case_limit_ms=30000,
+        canon=client_canon, equiv=client_equiv, proj=client_proj, impl_oracle=client_oracle, recheck=True,
+        nontrivial=lambda req, ans: "res=" in ans,
+        outcome_key=client_key,
+    )
 
 STREAMS.update({
     "roundtrip": dict(
@@ -281,7 +520,7 @@ DEFAULT_RULE = ("cases are generated from one SplitMix64 state per (stream, seed
                 "(buffer ≥ 2 bytes and the outcome is not EndOfBuffer at the first byte)")
 
 HOOK_COMMITS = ["7a8c9dd"]
-FIX_COMMITS = ["67bcb4a", "e9d4c57", "08bccf3"]
+FIX_COMMITS = ["67bcb4a", "e9d4c57", "08bccf3", "cbd1cfa", "e306b44"]
 
 NOT_APPLICABLE = {}
 
@@ -347,6 +586,76 @@ PROPS = {
                    "`cmp` stream, not yet a theorem. Trusted: Lean kernel; model of the Eq/Ord/Hash impls (validated by `cmp` stream).",
         streams=[dict(name="cmp")],
         explanation="C18: eq_iff_fold, eq_iff_cmp, cmp_is_lex, cmp_swap, cmp_trans, hash_congr, conv_text.",
+    ),
+    "C11": dict(
+        level="proof", module="Rsdns.Props.C11",
+        technique="Lean 4 theorems (serializer never leaves its buffer / never panics, refusal before send, payload clamp) + independent reference encoder as oracle on the real clients' wire bytes",
+        level_text="Proved for all inputs and buffer sizes: QueryWriter never writes outside its buffer and never panics; an unbuildable "
+                   "query is refused before any socket operation; the OPT payload is min(configured, buffer). What is on the wire is "
+                   "decided by an independent reference encoder (tools/props.py: expected_query) against every query the four real "
+                   "clients send over loopback UDP/TCP and against the hook-level encoder with all buffer sizes.",
+        level_note="PARTIAL proof: the byte-exact `query_bytes` statement (Props/C11.lean header) is decided by the oracle + correspondence, "
+                   "not yet a theorem. Trusted: Lean kernel; loopback delivers what was sent; the scripted server's log.",
+        streams=[dict(name="query", impl_oracle=query_oracle), dict(name="c11", impl_oracle=client_c11_oracle)],
+        explanation="C11: writer_safe, refused_before_send, payload_clamp; streams `query` (hook, buffers of every size, guard pages) and "
+                    "`c11` (four real clients × UDP/TCP × EDNS/buffer combinations).",
+    ),
+    "C12": dict(
+        level="proof", module="Rsdns.Props.C12",
+        technique="Lean 4 theorems about the UDP receive filter and loop (soundness, first match, junk skipped) + four real clients against scripted decoy sequences",
+        level_text="For all datagram sequences: an accepted datagram has the query's ID and exactly one question equal to the asked one "
+                   "(case-insensitively); the loop returns the first such datagram with exactly its bytes and skips everything else. "
+                   "The four real clients are run against scripted decoys over loopback and compared with the model.",
+        level_note="Datagrams longer than the receive buffer arrive truncated (kernel; assumed). Trusted: Lean kernel; model of "
+                   "udp_receive_loop (std + template) validated by the `c12` stream.",
+        streams=[dict(name="c12")],
+        explanation="C12: accept_sound, loop_first, junk_ignored, loop_complete, reject_short.",
+    ),
+    "C13": dict(
+        level="proof", module="Rsdns.Props.C13",
+        technique="Lean 4 theorems about the transport decision (predicates extracted from both client sources) + four real clients with server-side traces",
+        level_text="Proved: with Tcp no datagram is sent; with NoTcp no connection is opened and a truncated answer is returned as is; "
+                   "with Udp a TC answer leads to exactly one TCP exchange whose result is returned. udp_first/tcp_allowed are "
+                   "translated from clients/std/client_impl.rs and templates/async_client_impl.rs on every run.",
+        level_note="Trusted: Lean kernel; tools/extract.py; the scripted server's trace (datagrams seen, connections accepted).",
+        streams=[dict(name="c13")],
+        explanation="C13: strategy_table, tcp_only_sends_no_datagram, notcp_never_connects, udp_fallback.",
+    ),
+    "C14": dict(
+        level="proof", module="Rsdns.Props.C14",
+        technique="Lean 4 theorems over segment streams (closed form of TCP framing, segmentation invariance) + four real clients against scripted segmentations",
+        level_text="Proved for all segmentations, lengths and buffer sizes: the result of tcp_exchange is a function of the concatenated "
+                   "bytes and of close/stall only: exactly the N announced bytes, BufferTooShort(N) without reading the body, EOF on early "
+                   "close, never a short success. Real clients: N around buffer limits, splits inside the prefix, 1-byte segments, early "
+                   "close at every position class, trailing bytes; guard-paged caller buffer.",
+        level_note="Assumed: read_exact/write_all of std, tokio, async-std, smol satisfy their documented contracts.",
+        streams=[dict(name="c14")],
+        explanation="C14: readExact_spec, tcp_closed_form, tcp_split_invariant, tcp_exact, tcp_short_buffer, tcp_early_close.",
+    ),
+    "C15": dict(
+        level="other", module="Rsdns.Props.C15",
+        technique="Lean 4 theorems about the clients' deadline logic over an idealised clock (runtime timers assumed) + timing oracle on the four real clients",
+        level_text="Theorems about the modelled deadline machine: the UDP exchange ends by the lifetime; queries are re-sent at 0,T,2T,…; "
+                   "non-matching datagrams cannot end it with anything but Timeout; retries off ⇒ one datagram; the blocking client never "
+                   "asks for a zero socket timeout. Real clients: silence, decoys at chosen offsets, paced floods across every "
+                   "per-attempt deadline, delayed answers, stalled and slow-drip TCP; oracle on result kind, duration ≤ lifetime + 150 ms, "
+                   "retransmission times (timing verdicts must repeat twice).",
+        level_note="`other`: the truth lives partly in timers and schedulers. ASSUMED: timeout(d, fut) fires at d; SO_RCVTIMEO bounds a "
+                   "blocking recv; monotone clocks. NOT exhibited by the model: executor starvation, kernel buffer overflow, timer "
+                   "granularity.",
+        streams=[dict(name="c15")],
+        explanation="C15: ends_by, sends_schedule, no_retries, junk_only_times_out, std_timeout_never_zero.",
+    ),
+    "C16": dict(
+        level="other", module="Rsdns.Props.C16",
+        technique="Lean 4 theorems about the state a client carries between queries (internal buffer, socket queue) + query histories on the four real clients",
+        level_text="Theorems: take_buf is sound from any buffer state (also the one a dropped future leaves); what query_rrset parses is "
+                   "exactly the response, independent of buffer junk; the typed query equals from_msg on the raw query's bytes; a datagram "
+                   "handed out always carries the current query's ID and question. Real clients: histories of 2–5 queries mixing answered, "
+                   "timed out, invalid, malformed, oversized, late duplicates, dropped futures; results compared with the model.",
+        level_note="`other`: sockets and the async runtimes are assumed; ID collisions between queries (2^-16) are outside the statements.",
+        streams=[dict(name="c16")],
+        explanation="C16: take_buf_sound, junk_blind, typed_is_raw, stale_ignored, accepted_has_current_id.",
     ),
     "C10": dict(
         level="proof", module="Rsdns.Props.C10",
